@@ -19,4 +19,14 @@ def hNoiseVar (j : Json) : R Json := do
   let n ← natF j "n"
   pure <| jObj [("noise", jRat (noiseVar s h2 env vg)), ("cases", jOpt (fun q => jNat (caseCount q n)) k)]
 
+/-- {"op":"geneticRaw","cols":[[id,[dosage…]]…],"effects":[[id,[n,d]]…],"n":samples} → the genetic component per sample -/
+def hGeneticRaw (j : Json) : R Json := do
+  let cols ← listF (fun c => do match ← arr c with
+    | [i, d] => pure ((← str i, ← listOf int d) : String × List Int) | _ => throw "col") j "cols"
+  let effects ← listF (fun c => do match ← arr c with
+    | [i, b] => pure ((← str i, ← ratP b) : String × Rat) | _ => throw "effect") j "effects"
+  let n ← natF j "n"
+  pure <| jObj [("genetic", jArr ((List.range n).map (fun i => jRat (genetic cols effects i)))),
+    ("used", jArr ((aligned cols effects).map (fun e => jStr e.1)))]
+
 end Drv
